@@ -87,9 +87,9 @@ func (vm *Vm) EXTEND_REVERSED(items py.Tuple) {
 // Adds a traceback to the exc passed in for the current vm state
 func (vm *Vm) AddTraceback(exc *py.ExceptionInfo) {
 	exc.Traceback = &py.Traceback{
-		Next:   exc.Traceback,
-		Frame:  vm.frame,
-		Lasti:  vm.frame.Lasti,
+		Next:  exc.Traceback,
+		Frame: vm.frame,
+		Lasti: vm.frame.Lasti,
 		// Lasti has already been advanced past the instruction
 		// being executed, so look up an address inside it
 		Lineno: vm.frame.Code.Addr2Line(vm.frame.Lasti - 1),
@@ -1754,6 +1754,21 @@ func (vm *Vm) UnwindExceptHandler(frame *py.Frame, block *py.TryBlock) {
 	}
 }
 
+// dispatch runs the handler for opcode
+//
+// A panic in the handler (eg a failed type assertion or an index out
+// of range in a builtin it calls) is turned into the error returned,
+// so it becomes a python exception raised by this instruction rather
+// than the end of the embedding process.
+func (vm *Vm) dispatch(opcode OpCode, arg int32) (err error) {
+	defer func() {
+		if r := recover(); r != nil {
+			err = py.RecoverToError(r)
+		}
+	}()
+	return jumpTable[opcode](vm, arg)
+}
+
 // Run the virtual machine on a Frame object
 //
 // FIXME figure out how we are going to signal exceptions!
@@ -1762,6 +1777,13 @@ func (vm *Vm) UnwindExceptHandler(frame *py.Frame, block *py.TryBlock) {
 //
 // This is the equivalent of PyEval_EvalFrame
 func RunFrame(frame *py.Frame) (res py.Object, err error) {
+	// A panic outside an opcode handler (see dispatch) is returned
+	// as a python exception too
+	defer func() {
+		if r := recover(); r != nil {
+			res, err = nil, py.RecoverToError(r)
+		}
+	}()
 	var vm = Vm{
 		frame:   frame,
 		context: frame.Context,
@@ -1815,7 +1837,7 @@ func RunFrame(frame *py.Frame) (res py.Object, err error) {
 			}
 		}
 		vm.extended = false
-		err = jumpTable[opcode](&vm, arg)
+		err = vm.dispatch(opcode, arg)
 		if err != nil {
 			// FIXME shouldn't be doing this - just use err?
 			if errExcInfo, ok := err.(py.ExceptionInfo); ok {
@@ -2074,6 +2096,12 @@ func tooManyPositional(co *py.Code, given, defcount int, fastlocals []py.Object)
 //
 // This is the equivalent of PyEval_EvalCode with closure support
 func EvalCode(ctx py.Context, co *py.Code, globals, locals py.StringDict, args []py.Object, kws py.StringDict, defs []py.Object, kwdefs py.StringDict, closure py.Tuple) (retval py.Object, err error) {
+	// A panic while binding the arguments is returned as a python exception
+	defer func() {
+		if r := recover(); r != nil {
+			retval, err = nil, py.RecoverToError(r)
+		}
+	}()
 	total_args := int(co.Argcount + co.Kwonlyargcount)
 	n := len(args)
 	var kwdict py.StringDict
